@@ -54,10 +54,10 @@ IMPORTANT = ("tpllocal", "predeclared", "pkgname", "localtype", "caseclash", "tp
 def slots_for(ctx, tier):
     def f(prog):
         flip = ctx.rng.random() < 0.5
-        if tier == "thorough":
-            return [("testify", True), ("testify", False), ("matryer", True), ("matryer", False), ("testify", None), ("matryer", None)]
         if prog.get("extpkg"):
             return [("testify", False), ("matryer", False), ("matryer", False)]
+        if tier == "thorough":
+            return [("testify", True), ("testify", False), ("matryer", True), ("matryer", False), ("testify", None), ("matryer", None)]
         if prog["fam"] == "multi":        # 5-7 interfaces per file: two slots, the placement flips with the seed
             return [("testify", flip), ("matryer", not flip), ("matryer", flip)]
         if prog["fam"] in ("pkgs", "generic", "mname", "local", "unnamed") or prog["idclass"] in ("typename", "caseclash"):
